@@ -461,6 +461,10 @@ func c02Gen(r *rand.Rand, tier string) any {
 			sc.Ops = append(sc.Ops, opSpec{Op: "load-only", Index: r.IntN(2) == 0})
 		}
 		if r.IntN(6) == 0 {
+			// a collection (dawn gc) changes no build outcome either
+			sc.Ops = append(sc.Ops, opSpec{Op: "gc", Index: r.IntN(2) == 0})
+		}
+		if r.IntN(6) == 0 {
 			// a forced build (dawn build -B) of the label, or of something inside its closure:
 			// everything runs again, nothing has changed, and nothing may run after it
 			l := label
